@@ -12,6 +12,7 @@ package main
 // `in` / `arrive` may carry `!<kind>,<tag>` in front of the fields: what the generator says about the message in C15's terms
 // (`conforming`, or the single validator defect it planted); read by the monitor only.
 // cfg lsp=1 sets EnableLastMsgSeqNumProcessed (tag 369 on every outbound header).
+// cfg nx=1 sets EnableNextExpectedMsgSeqNum (tag 789 in the Logons we send; the peer's 789 is evaluated by handleLogon).
 // cfg rst=n builds the session with ResetSeqTime = n seconds of the day (UTC, HH:MM:SS); rst=- leaves it unset.
 // Inbound messages are `tag=value` lists in wire order (without 9 and 10); `@n` is a UTCTimestamp now+n seconds.
 // Observation: status | ordered observations… ; ctr S T ; st State [stash k,… cur fin] ; q n ; ib n ; stopped b
@@ -159,6 +160,9 @@ func (s *sessImpl) build(kv map[string]string) string {
 	}
 	if kv["lsp"] == "1" {
 		st.Set(config.EnableLastMsgSeqNumProcessed, "Y")
+	}
+	if kv["nx"] == "1" {
+		st.Set(config.EnableNextExpectedMsgSeqNum, "Y")
 	}
 	if vs, ok := kv["vs"]; ok {
 		if len(vs) != 5 || strings.Trim(vs, "01") != "" {
@@ -464,6 +468,7 @@ type sessGen struct {
 	rst    int // ResetSeqTime as seconds of the day, -1 = not configured
 	clock  int // the clock handed to CheckResetTime last (seconds after rtimeBase)
 	dict   bool // a data dictionary is configured
+	nx     bool // EnableNextExpectedMsgSeqNum is configured
 }
 
 func pickInt(r *rng, xs []int) int { return xs[r.intn(len(xs))] }
@@ -526,7 +531,50 @@ func (g *sessGen) echoBody(flag string) []string {
 	if g.bsi == 5 {
 		f = append(f, "1137=9")
 	}
+	if nx, garbled := g.nextExpectedField(); nx != "" && !garbled {
+		f = append(f, nx)
+	}
 	return f
+}
+
+// nextExpectedField: tag 789 of a Logon the peer sends — what it claims to expect from us next, relative to our next
+// outbound number as last observed (which is what handleLogon compares it with): equal, below (the peer missed messages),
+// above (it claims messages we never sent; one above is what an acceptor has after its own reply), absent, garbled.
+// Mostly in the cases with EnableNextExpectedMsgSeqNum, now and then without (the field is then ignored).
+func (g *sessGen) nextExpectedField() (field string, garbled bool) {
+	r := g.r
+	if !g.nx && !r.chance(1, 12) {
+		return "", false
+	}
+	n := g.sender
+	switch x := r.intn(20); {
+	case x < 6:
+	case x < 11:
+		n = g.sender - 1 - r.intn(4)
+		if r.chance(1, 4) {
+			n = pickInt(r, []int{1, 1, 0, -2})
+		}
+	case x < 14:
+		n = g.sender + 1
+	case x < 16:
+		n = g.sender + 2 + r.intn(5)
+	case x < 17:
+		return "789=" + r.pick([]string{"x", "1x", "+"}), true
+	default:
+		return "", false
+	}
+	g.o.kind("logon789." + map[bool]string{true: "on", false: "off"}[g.nx] + "." + map[int]string{-1: "below", 0: "equal", 1: "above"}[cmpInt(n, g.sender)])
+	return "789=" + strconv.Itoa(n), false
+}
+
+func cmpInt(a, b int) int {
+	if a < b {
+		return -1
+	}
+	if a > b {
+		return 1
+	}
+	return 0
 }
 
 func (g *sessGen) run(op string) string {
@@ -671,6 +719,10 @@ func (g *sessGen) body(kind string) (f []string, quirk bool, planted, ptag strin
 		}
 		if g.bsi == 5 && !r.chance(1, 15) {
 			f = append(f, "1137=9")
+		}
+		if nx, garbled := g.nextExpectedField(); nx != "" {
+			f = append(f, nx)
+			quirk = quirk || garbled
 		}
 		return
 	case "1":
@@ -965,6 +1017,9 @@ func genSess(r *rng, tier string, idx int, o *out, do func(string) string) strin
 		rst = strconv.Itoa(g.rst)
 	}
 	cfg += " rst=" + rst + " lsp=" + b(1, 4)
+	// EnableNextExpectedMsgSeqNum (a quarter of the cases)
+	g.nx = r.chance(1, 4)
+	cfg += " nx=" + map[bool]string{true: "1", false: "0"}[g.nx]
 	// the validator: data dictionaries (written by the harness, see sessdict.go) in two cases of five, the five validator
 	// settings explicitly in most of those and in some cases without a dictionary
 	randBits := func() string { return fmt.Sprintf("%05b", r.intn(32)) }
